@@ -44,6 +44,11 @@ type TSite struct {
 	What  string
 	Instr ssa.Instruction // the sink instruction itself (nil for sinks inherited from a callee)
 	Local bool            // the sink is in Fn itself (not inherited through a call)
+	// Mapped (inherited sinks only): the callee reached the memory through one of
+	// its parameters / captured variables, i.e. the label was translated at this
+	// call; false: the callee reaches it by itself (a package-level variable,
+	// a field) and has the same sink as a Local one of its own.
+	Mapped bool
 }
 
 // TSummary of one function.
@@ -60,10 +65,23 @@ type TSummary struct {
 	// Unknown (only with TaintEngine.PoolRelease): label -> unmodelled external /
 	// dynamic calls that receive memory with that label (label-keyed Unmodelled).
 	Unknown map[string][]TSite
+	// RetFuncs (only with PoolRelease): result index -> function literals the
+	// function returns as values, each with the labels of what it captured
+	// (in the labels of THIS function). Their effects apply where the returned
+	// value is called (`buf, release := borrow(); defer release()`).
+	RetFuncs map[int][]TRetFunc
+	// DynCalls (only with PoolRelease): calls through function values whose targets are not resolved.
+	DynCalls []TSite
+}
+
+// TRetFunc is a function literal returned as a value.
+type TRetFunc struct {
+	Fn   *ssa.Function
+	Bind []labelSet
 }
 
 func newTSummary() *TSummary {
-	return &TSummary{Writes: map[string][]TSite{}, Escapes: map[string][]TSite{}, Ret: map[int]labelSet{}, FieldStores: map[string]labelSet{}, Releases: map[string][]TSite{}, Unknown: map[string][]TSite{}}
+	return &TSummary{Writes: map[string][]TSite{}, Escapes: map[string][]TSite{}, Ret: map[int]labelSet{}, FieldStores: map[string]labelSet{}, Releases: map[string][]TSite{}, Unknown: map[string][]TSite{}, RetFuncs: map[int][]TRetFunc{}}
 }
 
 func (s *TSummary) size() int {
@@ -86,6 +104,15 @@ func (s *TSummary) size() int {
 	for _, v := range s.Unknown {
 		n += len(v)
 	}
+	for _, v := range s.RetFuncs {
+		for _, rf := range v {
+			n++
+			for _, b := range rf.Bind {
+				n += len(b)
+			}
+		}
+	}
+	n += len(s.DynCalls)
 	return n
 }
 
@@ -115,6 +142,8 @@ type TaintEngine struct {
 	UsedModels  map[string]int
 	callSites   map[*ssa.Function][]ssa.CallInstruction
 	funcFields  map[FieldID][]ssa.Value
+	soleImpl    map[*types.Func]*ssa.Function          // interface method -> the method of its only implementation (nil entry: none / several)
+	fwdBusy     map[*ssa.Parameter]bool                // paramFuncTargets: forwarded parameters being resolved (cycle guard)
 	extTargets  map[*ssa.Parameter]map[int]*types.Func // per function-typed parameter: call-site index -> bound library method
 }
 
@@ -235,13 +264,16 @@ func (t *TaintEngine) Run() {
 }
 
 type fnState struct {
-	t      *TaintEngine
-	fn     *ssa.Function
-	alias  map[ssa.Value]labelSet // memory the value's own backing store may share
-	holds  map[ssa.Value]labelSet // memory the ELEMENTS of a container of references may refer to
-	capped map[ssa.Value]bool
-	sum    *TSummary
-	seenW  map[string]bool
+	curMapped  bool                 // applySummary: the sink being inherited had a parameter / free-variable label
+	noRelease  bool                 // see MakeClosure: the literal is only returned, it does not run here
+	fvOverride func(i int) labelSet // applySummary: labels of the callee's free variables when no binding values are at hand
+	t          *TaintEngine
+	fn         *ssa.Function
+	alias      map[ssa.Value]labelSet // memory the value's own backing store may share
+	holds      map[ssa.Value]labelSet // memory the ELEMENTS of a container of references may refer to
+	capped     map[ssa.Value]bool
+	sum        *TSummary
+	seenW      map[string]bool
 }
 
 func (s *fnState) get(v ssa.Value) labelSet {
@@ -316,10 +348,13 @@ func (s *fnState) sink(kind string, ls labelSet, in ssa.Instruction, what string
 			continue
 		}
 		s.seenW[key] = true
-		site := TSite{Pos: instrPos(in), Fn: s.fn, What: what, Instr: in, Local: !strings.HasPrefix(what, "via ")}
+		site := TSite{Pos: instrPos(in), Fn: s.fn, What: what, Instr: in, Local: !strings.HasPrefix(what, "via "), Mapped: s.curMapped}
 		if kind == "w" {
 			s.sum.Writes[l] = append(s.sum.Writes[l], site)
 		} else if kind == "r" {
+			if s.noRelease {
+				continue
+			}
 			s.sum.Releases[l] = append(s.sum.Releases[l], site)
 		} else if kind == "u" {
 			s.sum.Unknown[l] = append(s.sum.Unknown[l], site)
@@ -403,6 +438,8 @@ func (s *fnState) applySummary(in ssa.Instruction, callee *ssa.Function, args []
 			}
 			return nil
 		}
+	} else if s.fvOverride != nil {
+		fvAlias = s.fvOverride
 	}
 	// sinks of a callee's own pooled values ("pool:" labels) are reported in the
 	// callee, where the value lives; only its results carry the label outwards
@@ -414,7 +451,9 @@ func (s *fnState) applySummary(in ssa.Instruction, callee *ssa.Function, args []
 		m := s.mapLabels(labelSet{l: true}, argAlias, fvAlias)
 		if len(m) > 0 {
 			w := sites[0]
+			s.curMapped = (strings.HasPrefix(l, "p") || strings.HasPrefix(l, "fv")) && !strings.HasPrefix(l, "pool:")
 			s.sink("w", m, in, fmt.Sprintf("via %s: %s at %s", FuncName(s.t.P, callee), w.What, s.t.P.Pos(w.Pos)))
+			s.curMapped = false
 		}
 	}
 	for l, sites := range cs.Escapes {
@@ -737,7 +776,16 @@ func (s *fnState) step(in ssa.Instruction) bool {
 			return false
 		}
 		// conservatively apply the closure's effects where it is created
+		onlyReturned := s.t.PoolRelease && closureOnlyReturned(x)
+		s.noRelease = onlyReturned
 		ch := s.applySummary(in, origin(f), nil, x.Bindings, nil)
+		s.noRelease = false
+		if onlyReturned {
+			// the literal does not run here: it gives back what it captured where the returned value is called
+			if s.recordRetFunc(x, origin(f)) {
+				ch = true
+			}
+		}
 		// closure value aliases its bindings (so passing it on keeps taint)
 		for _, b := range x.Bindings {
 			if s.add(x, s.get(b)) {
@@ -859,9 +907,45 @@ func (s *fnState) call(ci ssa.CallInstruction) bool {
 			return ch
 		}
 	}
+	// call of a function value that a same-module function returned (`x, release := borrow(); defer release()`)
+	if s.t.PoolRelease && !cc.IsInvoke() {
+		if src, j := retFuncSource(cc.Value); src != nil {
+			if cal := staticCallee(src); cal != nil && s.t.P.funcSet[cal] && s.t.Sum[cal] != nil {
+				if rfs := s.t.Sum[cal].RetFuncs[j]; len(rfs) > 0 {
+					ch := false
+					srcArgs := src.Call.Args
+					for _, rf := range rfs {
+						rf := rf
+						s.fvOverride = func(i int) labelSet {
+							if i >= len(rf.Bind) {
+								return nil
+							}
+							return s.mapLabels(rf.Bind[i], func(k int) labelSet {
+								if k < len(srcArgs) {
+									return s.both(srcArgs[k])
+								}
+								return nil
+							}, nil)
+						}
+						if s.applySummary(in, rf.Fn, cc.Args, nil, result) {
+							ch = true
+						}
+						s.fvOverride = nil
+					}
+					return ch
+				}
+			}
+		}
+	}
+	// method call through a module interface that has exactly one implementation in the module (a seam)
+	if s.t.PoolRelease && cc.IsInvoke() {
+		if m := s.t.soleImplementation(cc); m != nil {
+			return s.applySummary(in, m, append([]ssa.Value{cc.Value}, cc.Args...), nil, result)
+		}
+	}
 	// sync.Pool.Get
 	if s.t.TrackPools && callIs(ci, "sync", "Pool", "Get") && result != nil {
-		id, _ := lockIdent(cc.Args[0])
+		id, _ := lockIdent(throughSingleStoreCells(cc.Args[0], 0))
 		return s.add(result, labelSet{"pool:" + id: true})
 	}
 	// external / interface
@@ -881,6 +965,15 @@ func (s *fnState) call(ci ssa.CallInstruction) bool {
 // arguments.
 func (s *fnState) external(in ssa.Instruction, obj *types.Func, args []ssa.Value, result ssa.Value) bool {
 	key := extKey(obj)
+	if s.t.PoolRelease && obj == nil {
+		if ci, ok := in.(ssa.CallInstruction); ok && !ci.Common().IsInvoke() && builtinName(ci) == "" {
+			k := fmt.Sprintf("d|%p", in)
+			if !s.seenW[k] {
+				s.seenW[k] = true
+				s.sum.DynCalls = append(s.sum.DynCalls, TSite{Pos: instrPos(in), Fn: s.fn, What: "call through a function value whose targets are not resolved", Instr: in, Local: true})
+			}
+		}
+	}
 	if s.t.PoolRelease && key != "sync.Pool.Put" {
 		if _, modelled := s.t.Models[key]; !modelled || key == "" {
 			k := key
@@ -1074,44 +1167,149 @@ func (t *TaintEngine) paramFuncTargets(fn *ssa.Function, pa *ssa.Parameter) (tar
 		if idx >= len(args) {
 			return nil, nil, false
 		}
-		av := args[idx]
-		for {
-			if ct, isCT := av.(*ssa.ChangeType); isCT { // conversion to a named func type
-				av = ct.X
-				continue
-			}
-			break
-		}
-		switch v := av.(type) {
-		case *ssa.Function:
-			targets, bound = append(targets, origin(v)), append(bound, false)
-		case *ssa.MakeClosure:
-			f, _ := v.Fn.(*ssa.Function)
-			if f == nil {
-				return nil, nil, false
-			}
-			if t.P.funcSet[origin(f)] {
-				targets, bound = append(targets, origin(f)), append(bound, false)
-			} else if strings.Contains(f.Synthetic, "bound method") && f.Object() != nil {
-				mobj := f.Object().(*types.Func)
-				m := t.P.SSA.FuncValue(mobj)
-				if m == nil || !t.P.funcSet[origin(m)] {
-					if mobj.Pkg() != nil && strings.HasPrefix(mobj.Pkg().Path(), t.P.ModPath) {
-						return nil, nil, false // a module interface method: implementations unknown here
-					}
-					ext[len(targets)] = mobj
-					targets, bound = append(targets, nil), append(bound, true)
-					continue
-				}
-				targets, bound = append(targets, origin(m)), append(bound, true)
-			} else {
-				return nil, nil, false
-			}
-		default:
+		// the argument may be a function value kept in a local / captured variable,
+		// or a function-typed parameter of the caller that is passed on
+		origins, okO := funcValueOrigins(args[idx], 0)
+		if !okO {
 			return nil, nil, false
+		}
+		for _, av := range origins {
+			switch v := av.(type) {
+			case *ssa.Parameter:
+				// forwarded: the targets are those of the caller's parameter
+				if t.fwdBusy == nil {
+					t.fwdBusy = map[*ssa.Parameter]bool{}
+				}
+				if t.fwdBusy[v] || v == pa {
+					return nil, nil, false
+				}
+				t.fwdBusy[v] = true
+				tg2, b2, ok2 := t.paramFuncTargets(v.Parent(), v)
+				delete(t.fwdBusy, v)
+				if !ok2 {
+					return nil, nil, false
+				}
+				for i2 := range tg2 {
+					if tg2[i2] == nil {
+						ext[len(targets)] = t.extTargets[v][i2]
+					}
+					targets, bound = append(targets, tg2[i2]), append(bound, b2[i2])
+				}
+			case *ssa.Function:
+				targets, bound = append(targets, origin(v)), append(bound, false)
+			case *ssa.MakeClosure:
+				f, _ := v.Fn.(*ssa.Function)
+				if f == nil {
+					return nil, nil, false
+				}
+				if t.P.funcSet[origin(f)] {
+					targets, bound = append(targets, origin(f)), append(bound, false)
+				} else if strings.Contains(f.Synthetic, "bound method") && f.Object() != nil {
+					mobj := f.Object().(*types.Func)
+					m := t.P.SSA.FuncValue(mobj)
+					if m == nil || !t.P.funcSet[origin(m)] {
+						if mobj.Pkg() != nil && strings.HasPrefix(mobj.Pkg().Path(), t.P.ModPath) {
+							return nil, nil, false // a module interface method: implementations unknown here
+						}
+						ext[len(targets)] = mobj
+						targets, bound = append(targets, nil), append(bound, true)
+						continue
+					}
+					targets, bound = append(targets, origin(m)), append(bound, true)
+				} else {
+					return nil, nil, false
+				}
+			default:
+				return nil, nil, false
+			}
 		}
 	}
 	return targets, bound, true
+}
+
+// funcValueOrigins: the function literals / functions / forwarded parameters a
+// function-typed value may be: looks through conversions, phis, local variable
+// cells (every value ever stored) and variables captured from the enclosing function.
+func funcValueOrigins(v ssa.Value, depth int) ([]ssa.Value, bool) {
+	if depth > 6 {
+		return nil, false
+	}
+	switch x := v.(type) {
+	case *ssa.Function, *ssa.MakeClosure:
+		return []ssa.Value{v}, true
+	case *ssa.Parameter:
+		if _, isSig := x.Type().Underlying().(*types.Signature); isSig {
+			return []ssa.Value{v}, true
+		}
+	case *ssa.ChangeType:
+		return funcValueOrigins(x.X, depth+1)
+	case *ssa.Phi:
+		var out []ssa.Value
+		for _, ed := range x.Edges {
+			o, ok := funcValueOrigins(ed, depth+1)
+			if !ok {
+				return nil, false
+			}
+			out = append(out, o...)
+		}
+		return out, true
+	case *ssa.UnOp:
+		if x.Op != token.MUL {
+			return nil, false
+		}
+		var cell *ssa.Alloc
+		switch a := x.X.(type) {
+		case *ssa.Alloc:
+			cell = a
+		case *ssa.FreeVar:
+			// not assigned inside the literal itself (or its siblings): only the enclosing function's stores count
+			for _, r := range refs(a) {
+				if st, ok := r.(*ssa.Store); ok && st.Addr == ssa.Value(a) {
+					return nil, false
+				}
+			}
+			if b, ok := resolveFreeVar(a).(*ssa.Alloc); ok {
+				cell = b
+			} else if fv2, ok := resolveFreeVar(a).(*ssa.FreeVar); ok {
+				return funcValueOrigins(&ssa.UnOp{Op: token.MUL, X: fv2}, depth+1)
+			}
+		}
+		if cell == nil {
+			return nil, false
+		}
+		var out []ssa.Value
+		for _, r := range refs(cell) {
+			switch y := r.(type) {
+			case *ssa.Store:
+				if y.Addr != ssa.Value(cell) {
+					return nil, false
+				}
+				o, ok := funcValueOrigins(y.Val, depth+1)
+				if !ok {
+					return nil, false
+				}
+				out = append(out, o...)
+			case *ssa.UnOp, *ssa.DebugRef:
+			case *ssa.MakeClosure:
+				// captured: a literal that assigns the variable makes it unknown
+				if f, ok := y.Fn.(*ssa.Function); ok {
+					for i, b := range y.Bindings {
+						if b == ssa.Value(cell) && i < len(f.FreeVars) {
+							for _, rr := range refs(f.FreeVars[i]) {
+								if st, ok := rr.(*ssa.Store); ok && st.Addr == ssa.Value(f.FreeVars[i]) {
+									return nil, false
+								}
+							}
+						}
+					}
+				}
+			default:
+				return nil, false
+			}
+		}
+		return out, len(out) > 0
+	}
+	return nil, false
 }
 
 // fieldFuncTargets: v is the value of an unexported function-typed field of a
@@ -1280,4 +1478,245 @@ func localStruct(fa *ssa.FieldAddr) *ssa.Alloc {
 		}
 	}
 	return a
+}
+
+// closureOnlyReturned: the function literal mc is not called, deferred, started
+// or passed on in the function that creates it; it only flows to that
+// function's results (directly, through a phi, or through a named-result slot).
+func closureOnlyReturned(mc *ssa.MakeClosure) bool {
+	n := 0
+	var ok func(v ssa.Value, depth int) bool
+	ok = func(v ssa.Value, depth int) bool {
+		if depth > 4 {
+			return false
+		}
+		for _, r := range refs(v) {
+			switch x := r.(type) {
+			case *ssa.Return:
+				n++
+			case *ssa.DebugRef:
+			case *ssa.Phi:
+				if !ok(x, depth+1) {
+					return false
+				}
+			case *ssa.Store:
+				cell, isCell := x.Addr.(*ssa.Alloc)
+				if !isCell || x.Val != v {
+					return false
+				}
+				for _, rr := range refs(cell) {
+					switch y := rr.(type) {
+					case *ssa.Store:
+						if y.Addr != ssa.Value(cell) {
+							return false
+						}
+					case *ssa.UnOp:
+						if !ok(y, depth+1) {
+							return false
+						}
+					case *ssa.DebugRef:
+					default:
+						return false
+					}
+				}
+			default:
+				return false
+			}
+		}
+		return true
+	}
+	return ok(mc, 0) && n > 0
+}
+
+// recordRetFunc notes, for every result the literal flows to, the literal and what it captured.
+func (s *fnState) recordRetFunc(mc *ssa.MakeClosure, f *ssa.Function) bool {
+	changed := false
+	idxs := map[int]bool{}
+	var walk func(v ssa.Value, depth int)
+	walk = func(v ssa.Value, depth int) {
+		if depth > 4 {
+			return
+		}
+		for _, r := range refs(v) {
+			switch x := r.(type) {
+			case *ssa.Return:
+				for j, res := range x.Results {
+					if res == v {
+						idxs[j] = true
+					}
+				}
+			case *ssa.Phi:
+				walk(x, depth+1)
+			case *ssa.Store:
+				if cell, ok := x.Addr.(*ssa.Alloc); ok {
+					for _, rr := range refs(cell) {
+						if ld, ok := rr.(*ssa.UnOp); ok {
+							walk(ld, depth+1)
+						}
+					}
+				}
+			}
+		}
+	}
+	walk(mc, 0)
+	for j := range idxs {
+		var cur *TRetFunc
+		for i := range s.sum.RetFuncs[j] {
+			if s.sum.RetFuncs[j][i].Fn == f {
+				cur = &s.sum.RetFuncs[j][i]
+			}
+		}
+		if cur == nil {
+			s.sum.RetFuncs[j] = append(s.sum.RetFuncs[j], TRetFunc{Fn: f, Bind: make([]labelSet, len(mc.Bindings))})
+			cur = &s.sum.RetFuncs[j][len(s.sum.RetFuncs[j])-1]
+			changed = true
+		}
+		for i, b := range mc.Bindings {
+			if cur.Bind[i] == nil {
+				cur.Bind[i] = labelSet{}
+			}
+			if cur.Bind[i].addAll(s.both(b)) {
+				changed = true
+			}
+		}
+	}
+	return changed
+}
+
+// retFuncSource: v is (a component of) the result of a call; returns the call and the result index.
+func retFuncSource(v ssa.Value) (*ssa.Call, int) {
+	switch x := v.(type) {
+	case *ssa.Call:
+		if x.Call.Signature().Results().Len() == 1 {
+			return x, 0
+		}
+	case *ssa.Extract:
+		if c, ok := x.Tuple.(*ssa.Call); ok {
+			return c, x.Index
+		}
+	}
+	return nil, 0
+}
+
+// throughSingleStoreCells: v loaded from a local (possibly captured) variable that
+// is assigned exactly once: the value assigned. Otherwise v.
+func throughSingleStoreCells(v ssa.Value, depth int) ssa.Value {
+	if depth > 4 {
+		return v
+	}
+	u, ok := v.(*ssa.UnOp)
+	if !ok || u.Op != token.MUL {
+		return v
+	}
+	var cell *ssa.Alloc
+	switch a := u.X.(type) {
+	case *ssa.Alloc:
+		cell = a
+	case *ssa.FreeVar:
+		for _, r := range refs(a) {
+			if st, ok := r.(*ssa.Store); ok && st.Addr == ssa.Value(a) {
+				return v
+			}
+		}
+		cell, _ = resolveFreeVar(a).(*ssa.Alloc)
+	}
+	if cell == nil {
+		return v
+	}
+	var val ssa.Value
+	for _, r := range refs(cell) {
+		switch y := r.(type) {
+		case *ssa.Store:
+			if y.Addr != ssa.Value(cell) || val != nil {
+				return v
+			}
+			val = y.Val
+		case *ssa.UnOp, *ssa.DebugRef:
+		case *ssa.MakeClosure:
+			if f, ok := y.Fn.(*ssa.Function); ok {
+				for i, b := range y.Bindings {
+					if b == ssa.Value(cell) && i < len(f.FreeVars) {
+						for _, rr := range refs(f.FreeVars[i]) {
+							if st, ok := rr.(*ssa.Store); ok && st.Addr == ssa.Value(f.FreeVars[i]) {
+								return v
+							}
+						}
+					}
+				}
+			}
+		default:
+			return v
+		}
+	}
+	if val == nil {
+		return v
+	}
+	return throughSingleStoreCells(val, depth+1)
+}
+
+// soleImplementation: cc invokes a method of an interface declared in the
+// module; if exactly one named type of the module implements that interface,
+// returns that type's method (a module function), else nil.
+func (t *TaintEngine) soleImplementation(cc *ssa.CallCommon) *ssa.Function {
+	m := cc.Method
+	if m == nil || m.Pkg() == nil || !strings.HasPrefix(m.Pkg().Path(), t.P.ModPath) {
+		return nil
+	}
+	if t.soleImpl == nil {
+		t.soleImpl = map[*types.Func]*ssa.Function{}
+	}
+	if f, ok := t.soleImpl[m]; ok {
+		return f
+	}
+	t.soleImpl[m] = nil
+	iface, ok := cc.Value.Type().Underlying().(*types.Interface)
+	if !ok || iface.NumMethods() == 0 {
+		return nil
+	}
+	var impl types.Type
+	n := 0
+	for _, pkg := range t.P.Pkgs {
+		if !strings.HasPrefix(pkg.PkgPath, t.P.ModPath) || pkg.Types == nil {
+			continue
+		}
+		sc := pkg.Types.Scope()
+		for _, name := range sc.Names() {
+			tn, ok := sc.Lookup(name).(*types.TypeName)
+			if !ok || tn.IsAlias() {
+				continue
+			}
+			nt, ok := tn.Type().(*types.Named)
+			if !ok || nt.TypeParams().Len() > 0 {
+				continue
+			}
+			if _, isI := nt.Underlying().(*types.Interface); isI {
+				continue
+			}
+			switch {
+			case types.Implements(nt, iface):
+				impl, n = nt, n+1
+			case types.Implements(types.NewPointer(nt), iface):
+				impl, n = types.NewPointer(nt), n+1
+			}
+		}
+	}
+	if n != 1 {
+		return nil
+	}
+	sel := t.P.SSA.MethodSets.MethodSet(impl).Lookup(m.Pkg(), m.Name())
+	if sel == nil {
+		return nil
+	}
+	f := t.P.SSA.MethodValue(sel)
+	if f == nil || !t.P.funcSet[origin(f)] {
+		// promoted / wrapper: use the declared method if it is a module function
+		if obj, ok := sel.Obj().(*types.Func); ok {
+			f = t.P.SSA.FuncValue(obj)
+		}
+	}
+	if f == nil || !t.P.funcSet[origin(f)] {
+		return nil
+	}
+	t.soleImpl[m] = origin(f)
+	return origin(f)
 }
